@@ -3,7 +3,7 @@ from props.m1common import *  # noqa: F401,F403
 from props.m1common import hist_compare, hist_oracle, hist_times, g, sp, sx, rng_for, is_err, compare_result, shrink_tree
 
 PID = "C05"
-KERNELS = ['K_chronon_cut_off', 'K_abstf', 'K_env_extend_until', 'K_squash_in']   # translated from /repo on every run, tied to the model by coq/Gen/<name>_eq.v
+KERNELS = ['K_chronon_cut_off', 'K_abstf', 'K_env_extend_until', 'K_squash_in', 'K_sim_handlers']   # translated from /repo on every run, tied to the model by coq/Gen/<name>_eq.v
 RUNNER = "impl_m1.py"
 VM_CROSSCHECK = True
 N = {"quick": 2000, "thorough": 80000}
